@@ -742,7 +742,37 @@ def c07(rep, tier, seed, wd, replay):
     # service level: refused requests leave all state unchanged (model agreement incl. exports)
     sizes = tier_sizes(tier, (12, 30), (100, 80))
     opts = {"faults": False, "huge": False}
-    run_hist_property(rep, tier, seed, wd, "C07", SIGN_KINDS + ("export",), opts, sizes, corpus=False)
+    OPNAME = {"att": "Sign beacon attestation", "prop": "Sign beacon proposal", "sign": "Sign"}
+
+    def judge_released(rep, dh, wd, all_h):
+        """every signature the service released must be one the SPECIFICATION grants to that client for the account the
+        request resolved to (the account whose key signed), whatever name the request carried"""
+        from common import run_model
+        jl, jm = [], []
+        for hi, h in enumerate(all_h):
+            jl += ["reset"] + [l for l in h["cfg"] if l.split()[0] in ("perm", "permclient")]
+            jm.append(None)
+            byk = {a.pk: a for a in h["accts"]}
+            for (k, key, data, sig, i, j, st) in hist.released(h["ops"], h["impl"], h["accts"]):
+                if key is None or key not in byk:
+                    continue
+                cl = h["ops"][i].split()[1]
+                jl.append("jcheck %s %s %s 1" % (cl, hx(byk[key].path), hx(OPNAME[k])))
+                jm.append((hi, i, j))
+        out = run_model(jl)
+        outs = [o for o in out if o.strip()]
+        res = [o.strip() for o in outs]
+        # reset lines print nothing; align by counting only judged lines
+        judged = [m for m in jm if m is not None]
+        rep.cov["released_signatures_judged_against_permissions"] = len(judged)
+        for m, o in zip(judged, res):
+            if o != "ok":
+                hi, i, j = m
+                rep.violation("signature-released-without-permission", "a signature was released for an account the client's permissions do not grant (%s)" % o,
+                              {"config": all_h[hi]["cfg"], "ops": all_h[hi]["ops"][:i + 1], "position": j})
+                return True
+        return False
+    run_hist_property(rep, tier, seed, wd, "C07", SIGN_KINDS + ("export",), opts, sizes, corpus=False, judges=[judge_released])
 
 
 def run_imp_scenarios(rep, dh, wd, scen, label="imp"):
